@@ -25,6 +25,8 @@ package format
 
 //@ func (*StanzaReader).ReadStanza(r) (s, err)
 //@   requires r.r != nil
+//@   call HasPrefix#1 requires len(arg0) >= 1 && arg0[len(arg0) - 1] == 10                                              [C03 C07 C16]
+//@   call TrimSuffix#1 requires len(arg0) >= 1 && at(arg0, len(arg0) - 1) == 10 && arg1 == "\n"                           [C03 C07 C16]
 //@   loop 1 invariant -1 <= rangeindex && rangeindex < len(args) && (forall j in 0..rangeindex+1 :: isvalid(args[j]))
 //@   loop 1 decreases len(args) - rangeindex
 //@   loop 2 invariant s != nil && r.r != nil && len(s.Body) % 48 == 0 && isvalid(s.Type) && (forall j in 0..len(s.Args) :: isvalid(s.Args[j])) && issuffix(r.r.$rem, old(r.r.$rem)) && len(r.r.$rem) < len(old(r.r.$rem)) && old(r.err) == nil
@@ -46,6 +48,7 @@ package format
 //@   loop 1 decreases len(rr.$rem)
 //@   ensures#intro err == nil ==> sub(old(input.$rem), 0, 22) == "age-encryption.org/v1\n"                   [C03 C05 C07]
 //@   ensures#count err == nil ==> len(h.Recipients) == calls("ReadStanza",1) - old(calls("ReadStanza",1))    [C01 C03 C07]
+//@   ensures#footerlf err == nil ==> len(lastret("ReadBytes",1,0)) >= 1 && lastret("ReadBytes",1,0)[len(lastret("ReadBytes",1,0)) - 1] == 10   [C03 C07]
 //@   ensures#footer err == nil ==> lastret("splitArgs",1,0) == "---" && len(lastret("splitArgs",1,1)) == 1        [C03 C05 C07]
 //@   ensures#reject err != nil ==> h == nil && payload == nil                       [C07 C14]
 //@   ensures#ok err == nil ==> h != nil && payload != nil && len(h.MAC) == 32       [C07]
@@ -123,3 +126,6 @@ package format
 //@   ensures#val err == nil ==> bytes(b) == unb64raw(s)                                 [C07]
 //@   fresh b when err == nil && len(b) > 0
 //@   modifies nothing
+
+//@ methodset (*WrappedBase64Encoder) Close, LastLineIsEmpty, Write, writeWrapped      [C07 C08 C13]
+//@ methodset (*StanzaReader) ReadStanza                                                [C07]
